@@ -173,6 +173,13 @@ func c05Ops(cfg c05Cfg) func(w W) []lop {
 				if len(cfg.vals) >= 2 {
 					ops = append(ops, lop{K: opNewFrom, Dst: r, V: vref{0, 0}, V2: vref{0, len(cfg.vals) - 1}})
 				}
+				if cfg.refs {
+					for ri, reg := range w.Regs {
+						if ri != r && reg != nil && (w.Regs[r] == nil || !model.Reaches(reg, w.Regs[r])) {
+							ops = append(ops, lop{K: opNewOf, Dst: r, V: vref{1, ri}, I: 2}, lop{K: opNewV, Dst: r, V: vref{1, ri}})
+						}
+					}
+				}
 			}
 			m, ok := w.Regs[r].(*model.L)
 			if !ok || m == nil {
